@@ -28,7 +28,8 @@ def sameKey (a b : Route) : Bool := a.net = b.net && a.pid = b.pid
 
 /-- canonical content of a route: attributes compared as the multiset the wire order cannot
     distinguish (observations are already sorted by code on both sides) -/
-def sameRoute (a b : Route) : Bool := sameKey a b && a.nh = b.nh && a.attrs = b.attrs
+def sameRoute (a b : Route) : Bool :=
+  sameKey a b && a.nh = b.nh && a.attrs = b.attrs && !a.amb && !b.amb
 
 /-- announcements that are live at the end of a history: (source address, prefix index, remote path id) -/
 def liveAnn (srcs : List Source) : List Op → List (Addr × Nat × Nat) → List (Addr × Nat × Nat)
@@ -50,14 +51,24 @@ def liveAnn (srcs : List Source) : List Op → List (Addr × Nat × Nat) → Lis
           | none => liveAnn srcs rest acc
       | _ => liveAnn srcs rest acc
 
+/-- Class of the history reported with a failure (it is part of the finding's signature): did some
+    soft-reset re-walk of the RIB run while changes emitted before it were still queued behind it
+    in the session's channel (`overtaken`, an observed fact about the schedule)?  Does the history
+    start an LLGR stale period (an event outside the property's quantifier, kept as an extra)? -/
+def scheduleClass (c : Case01) (o : Obs01) : String :=
+  if (c.pre ++ c.ops).any (fun op => match op with | .llgr _ => true | _ => false) then " class=llgr-restale"
+  else if o.overtaken > 0 then " class=refresh-overtook-queued-changes"
+  else " class=in-order"
+
 def check (c : Case01) (o : Obs01) : Verdict :=
   let live := liveAnn c.srcs (c.pre ++ c.ops) []
   let liveNets : List Net := live.filterMap (fun x => (c.pfxs[x.2.1]?).map (·.1))
-  if o.final.any (fun r => !liveNets.contains r.net) then .fail "view-holds-prefix-absent-from-rib"
-  else if o.final.any (fun r => !o.dump.any (sameKey r)) then .fail "stale-route-not-withdrawn"
-  else if o.dump.any (fun r => !o.final.any (sameKey r)) then .fail "route-of-fresh-dump-missing"
-  else if o.final.any (fun r => !o.dump.any (sameRoute r)) then .fail "route-differs-from-fresh-dump"
-  else if o.final.length ≠ o.dump.length then .fail "duplicate-key-in-view"
+  let cls := scheduleClass c o
+  if o.final.any (fun r => !liveNets.contains r.net) then .fail ("view-holds-prefix-absent-from-rib" ++ cls)
+  else if o.final.any (fun r => !o.dump.any (sameKey r)) then .fail ("stale-route-not-withdrawn" ++ cls)
+  else if o.dump.any (fun r => !o.final.any (sameKey r)) then .fail ("route-of-fresh-dump-missing" ++ cls)
+  else if o.final.any (fun r => !o.dump.any (sameRoute r)) then .fail ("route-differs-from-fresh-dump" ++ cls)
+  else if o.final.length ≠ o.dump.length then .fail ("duplicate-key-in-view" ++ cls)
   else .ok
 
 end Rbgp.Export.Spec01
